@@ -1357,6 +1357,9 @@ class SpaceManager(SharedSpaceOperations):
         self.update_subs(space, skip_self=False)
 
     def del_ref(self, space, name):
+        # Delete ItemSpaces holding dynamic copies of the space or its subs
+        for s in self._get_subs(space, skip_self=False):
+            s.clear_subs_rootitems()
         space.on_del_ref(name)
         self.update_subs(space, skip_self=False)
 
@@ -1504,6 +1507,9 @@ class SpaceManager(SharedSpaceOperations):
                     raise ValueError("Cannot create reference '%s'" % name)
 
         self._check_subs_relrefs(space, name, value, refmode)
+        # Delete ItemSpaces holding dynamic copies of the space or its subs
+        for s in self._get_subs(space, skip_self=False):
+            s.clear_subs_rootitems()
         result = space.on_create_ref(name, value, is_derived=False,
                             refmode=refmode)
 
